@@ -22,8 +22,11 @@ fn feed(cfg: &WCfg, seq: &[Entry]) -> Outcome {
             Ok(Ok(())) => {}
             Ok(Err(e)) => return Outcome::IoError(e.to_string()),
             Err(p) => {
-                // a panicking writer is abandoned (its state is unspecified)
-                std::mem::forget(w.take());
+                // a panicking writer is abandoned (its state is unspecified), never reused; it is
+                // dropped under the same guard (leaking it would exhaust memory over millions of
+                // sequences)
+                let dead = w.take();
+                let _ = guarded(move || drop(dead));
                 return Outcome::PanicAtInsert(i, p);
             }
         }
@@ -173,7 +176,7 @@ fn check_seq(ctx: &Ctx, stream: &str, idx: u64, cfg: &WCfg, seq: &[Entry], kind:
 }
 
 pub fn run(ctx: &Ctx) -> i32 {
-    let n = ctx.n(100_000, 10_000_000);
+    let n = ctx.n(100_000, 6_000_000);
     ctx.par("perturbed", n, true, |idx, rng| {
         let mut cfg = gen::gen_cfg(rng, true);
         cfg.block_size = Some(*rng.pick(&[0usize, 1024, 1024, 1024, 1500, 2048]));
@@ -222,7 +225,7 @@ pub fn run(ctx: &Ctx) -> i32 {
     ctx.finish(
         "exploration",
         "ascending sequences perturbed by duplicates, swaps, descending runs, shuffles and (aimed at probable block starts) a first key equal to / below the previous block's last key or a restart from the smallest keys, with small blocks and index levels 0-3, fed to the real writer; each sequence must either panic (justified only if the prefix up to the panicking insert is not strictly ascending) or yield a file that the independent decoder splits into blocks whose keys are all strictly ascending. Run in the plain release build and in the overflow/debug-checked build. non-trivial = sequence not strictly ascending; distinct = distinct (config, key sequence) hash",
-        &["a sequence that is out of order only across a block edge and does not panic is accepted iff every block of the file is strictly ascending", "a panicking writer is abandoned (leaked), never reused"],
+        &["a sequence that is out of order only across a block edge and does not panic is accepted iff every block of the file is strictly ascending", "a panicking writer is abandoned (dropped), never reused"],
         J::obj(),
     )
 }
